@@ -31,6 +31,9 @@ DisjU == {[k |-> "union", l |-> a, r |-> b, disjoint |-> TRUE] : a \in Small2, b
 ContC == {[k |-> "cut", l |-> a, r |-> b, contained |-> TRUE] : a \in {Par(V2(-12, -12), V2(12, -12), V2(-12, 12))}, b \in Small2}
          \cup {[k |-> "cut", l |-> Cir(V2(0, 0), A1(8, "k")), r |-> Cir(<<A0(1), A0(0)>>, A0(6)), contained |-> TRUE]}
 Transf == {Tr(a, t) : a \in PrimsG \cup {Bd(p) : p \in PrimsG}, t \in TransVecs}
+          \* a constant translation of a parameter-driven translation, and the other nesting order
+          \cup {Tr(Tr(a, <<A1(0, "t"), A0(2)>>), V2(4, -2)) : a \in {Par(V2(0, 0), V2(8, 0), V2(0, 8)), Cir(V2(0, 0), A0(6))}}
+          \cup {Tr(Tr(a, V2(-3, 5)), <<A1(-4, "k"), A1(-4, "t")>>) : a \in {Par(V2(0, 0), V2(8, 0), V2(0, 8))}}
           \cup {Ro(a, m, p) : a \in PrimsG \cup {Bd(q) : q \in PrimsG}, m \in {"r90", "p345", "p51213"}, p \in RotPts}
 TransfQ == RotQ1 \cup RotQ2 \cup Rot3D1 \cup {Roq(Bd(p), an, V2(2, -4)) : p \in {Par(V2(-8, -6), V2(4, -2), V2(-4, 6)), Cir(<<A1(-4, "t"), A0(0)>>, A1(2, "k")), Poly(<<RingL>>)}, an \in {"t", "k"}}
            \cup {Ro3(Bd(p), m, V3(2, -4, 2)) : p \in {MeshBox, Sph}, m \in {"z345", "zx"}}
